@@ -287,6 +287,27 @@ def exit_model_validation(ctx):
             os.unlink(outp)
             s, d = simulate({}, [{"op": "write", "where": "at_byte", "at_byte": limit, "kind": "EFBIG", "persistent": True}])
             cases.append({"case": "RLIMIT_FSIZE = output length - %d" % cut, "real": rc, "sim": s["status"], "bytes_equal": strip_year(got) == strip_year(d)})
+        # the same with an unbuffered stdout (python -u / PYTHONUNBUFFERED), where every print is a write(2)
+        for cut in (5000, 150000):
+            limit = n - cut
+            outp = os.path.join(ctx.pool.scratch, "fsize.out")
+            e = dict(os.environ)
+            e.update({"PYTHONUNBUFFERED": "1", "PYTHONHASHSEED": "0", "PYTHONDONTWRITEBYTECODE": "1", "GIT_DIR": "/nonexistent-dir/.git", "GIT_CEILING_DIRECTORIES": "/"})
+
+            def pre(limit=limit):
+                resource.setrlimit(resource.RLIMIT_FSIZE, (limit, limit))
+
+            with open(outp, "wb") as f:
+                try:
+                    p = subprocess.run([sys.executable, os.path.join(root, _tree.TOOL_REL)] + args, cwd=root, env=e, stdout=f, stderr=subprocess.PIPE, preexec_fn=pre, timeout=REAL_RUN_TIMEOUT_S)
+                    rc = p.returncode
+                except subprocess.TimeoutExpired:
+                    rc = "timeout"
+            with open(outp, "rb") as f:
+                got = f.read()
+            os.unlink(outp)
+            s, d = simulate({"stdout_mode": "unbuffered"}, [{"op": "write", "where": "at_byte", "at_byte": limit, "kind": "EFBIG", "persistent": True}])
+            cases.append({"case": "unbuffered, RLIMIT_FSIZE = output length - %d" % cut, "real": rc, "sim": s["status"], "bytes_equal": strip_year(got) == strip_year(d)})
     # 7. an unreadable input: a unit name whose header does not exist (ENOENT at open)
     sel3 = dict(base_sel, units=["no_such_unit_zzz"])
     r = _real_run_shadow(_env.argv_of(sel3), stdout=subprocess.PIPE)
